@@ -15,7 +15,9 @@
 (*    effect nothing further is sent.                                      *)
 (* Events (the harness maps each send onto the frame it belongs to by its  *)
 (* offset in the stream the independent peer decoded):                     *)
-(*  [k |-> "enq", t, p]  [k |-> "forced", t, p] (forced write returned ok) *)
+(*  [k |-> "handq", t, p] (a non-forced write_packet call begins)            *)
+(*  [k |-> "qdone", t, p] (it returned)                                      *)
+(*  [k |-> "forced", t, p] (a forced write returned ok)                      *)
 (*  [k |-> "chunk", t, p, first, last, lockok]                             *)
 (*  [k |-> "disc_point", imm]  [k |-> "closed"]  [k |-> "final", decoded]  *)
 (***************************************************************************)
@@ -23,25 +25,27 @@ EXTENDS Naturals, Sequences, FiniteSets, TLC, Json, IOUtils
 
 Traces == JsonDeserialize(IOEnv.TRACE_FILE)
 
-VARIABLES tid, l, enq, done, cur, curBy, discQ, discSeen, immSeen, closed, forced, rejected
-vars == <<tid, l, enq, done, cur, curBy, discQ, discSeen, immSeen, closed, forced, rejected>>
+VARIABLES tid, l, enq, qdone, done, cur, curBy, discQ, discSeen, immSeen, closed, forced, rejected
+vars == <<tid, l, enq, qdone, done, cur, curBy, discQ, discSeen, immSeen, closed, forced, rejected>>
 Ev == Traces[tid].ev
 
-Init == /\ tid \in 1..Len(Traces) /\ l = 1 /\ enq = <<>> /\ done = {} /\ cur = 0 /\ curBy = "none"
+Init == /\ tid \in 1..Len(Traces) /\ l = 1 /\ enq = <<>> /\ qdone = {} /\ done = {} /\ cur = 0 /\ curBy = "none"
         /\ discQ = {} /\ discSeen = FALSE /\ immSeen = FALSE /\ closed = FALSE /\ forced = {} /\ rejected = ""
-Reject(why) == rejected' = why /\ UNCHANGED <<tid, l, enq, done, cur, curBy, discQ, discSeen, immSeen, closed, forced>>
+Reject(why) == rejected' = why /\ UNCHANGED <<tid, l, enq, qdone, done, cur, curBy, discQ, discSeen, immSeen, closed, forced>>
 Adv == l' = l + 1 /\ UNCHANGED <<tid, rejected>>
 
-\* queued packets of thread t that are not on the wire yet, oldest first
+\* packets handed by thread t with non-forced writes that are not on the wire yet, oldest first
 PendingOf(t) == SelectSeq(enq, LAMBDA x : x[1] = t /\ x[2] \notin done /\ x[2] # cur)
 
 Step ==
   /\ rejected = "" /\ l <= Len(Ev)
   /\ LET e == Ev[l] IN
-     CASE e.k = "enq" -> Adv /\ enq' = Append(enq, <<e.t, e.p>>)
-                         /\ UNCHANGED <<done, cur, curBy, discQ, discSeen, immSeen, closed, forced>>
+     CASE e.k = "handq" -> Adv /\ enq' = Append(enq, <<e.t, e.p>>)
+                           /\ UNCHANGED <<qdone, done, cur, curBy, discQ, discSeen, immSeen, closed, forced>>
+       [] e.k = "qdone" -> Adv /\ qdone' = qdone \cup {e.p}
+                           /\ UNCHANGED <<enq, done, cur, curBy, discQ, discSeen, immSeen, closed, forced>>
        [] e.k = "forced" -> Adv /\ forced' = forced \cup {e.p}
-                            /\ UNCHANGED <<enq, done, cur, curBy, discQ, discSeen, immSeen, closed>>
+                            /\ UNCHANGED <<enq, qdone, done, cur, curBy, discQ, discSeen, immSeen, closed>>
        [] e.k = "chunk" ->
             IF ~e.lockok THEN Reject("a socket send happened while the sender did not own the write lock")
             ELSE IF immSeen THEN Reject("bytes were sent after an immediate disconnect had taken effect")
@@ -58,25 +62,25 @@ Step ==
                  /\ cur' = IF e.last THEN 0 ELSE e.p
                  /\ curBy' = IF e.last THEN "none" ELSE e.t
                  /\ done' = IF e.last THEN done \cup {e.p} ELSE done
-                 /\ UNCHANGED <<enq, discQ, discSeen, immSeen, closed, forced>>
+                 /\ UNCHANGED <<enq, qdone, discQ, discSeen, immSeen, closed, forced>>
        [] e.k = "disc_point" ->
             /\ Adv
             /\ IF e.imm THEN immSeen' = TRUE /\ UNCHANGED <<discQ, discSeen>>
                ELSE /\ discSeen' = TRUE /\ immSeen' = immSeen
-                    /\ discQ' = IF discSeen THEN discQ ELSE {enq[i][2] : i \in 1..Len(enq)} \ done
-            /\ UNCHANGED <<enq, done, cur, curBy, closed, forced>>
+                    /\ discQ' = IF discSeen THEN discQ ELSE qdone \ done
+            /\ UNCHANGED <<enq, qdone, done, cur, curBy, closed, forced>>
        [] e.k = "closed" ->
             IF discSeen /\ ~immSeen /\ ~(discQ \subseteq done)
             THEN Reject("the connection was closed before everything queued before the disconnect had been sent")
             ELSE IF cur # 0 THEN Reject("the connection was closed in the middle of a frame")
-            ELSE Adv /\ closed' = TRUE /\ UNCHANGED <<enq, done, cur, curBy, discQ, discSeen, immSeen, forced>>
+            ELSE Adv /\ closed' = TRUE /\ UNCHANGED <<enq, qdone, done, cur, curBy, discQ, discSeen, immSeen, forced>>
        [] e.k = "final" ->
             IF ~e.decoded THEN Reject("the independent peer could not decode the byte stream as well-formed frames")
             ELSE IF ~(forced \subseteq done) THEN Reject("a forced write returned but its packet never reached the wire")
-            ELSE IF ~discSeen /\ ~immSeen /\ ~e.idle THEN Adv /\ UNCHANGED <<enq, done, cur, curBy, discQ, discSeen, immSeen, closed, forced>>
-            ELSE IF ~discSeen /\ ~immSeen /\ ~({enq[i][2] : i \in 1..Len(enq)} \subseteq done)
+            ELSE IF ~discSeen /\ ~immSeen /\ ~e.idle THEN Adv /\ UNCHANGED <<enq, qdone, done, cur, curBy, discQ, discSeen, immSeen, closed, forced>>
+            ELSE IF ~discSeen /\ ~immSeen /\ ~(qdone \subseteq done)
                  THEN Reject("a queued packet never reached the wire although the connection stayed open")
-            ELSE Adv /\ UNCHANGED <<enq, done, cur, curBy, discQ, discSeen, immSeen, closed, forced>>
+            ELSE Adv /\ UNCHANGED <<enq, qdone, done, cur, curBy, discQ, discSeen, immSeen, closed, forced>>
        [] OTHER -> Reject("unknown event")
 
 Spec == Init /\ [][Step]_vars
